@@ -1053,7 +1053,8 @@ fn run_eventually(a: &Args, shared: &SharedReport, checks: Vec<&'static str>, wi
         for (i, &ma) in masks.iter().enumerate() {
             let mb = masks[(i * 5 + 2) % masks.len()];
             for (pi, props) in eventually_propsets(n, ma, mb, th).into_iter().enumerate() {
-                if !th && (pi + i) % 4 != 0 {
+                if !th && (pi + i) % 4 != 0 && core.inits.len() < 3 {
+                    // (the few models with more roots than workers are not subsampled)
                     continue;
                 }
                 idx += 1;
@@ -1065,7 +1066,7 @@ fn run_eventually(a: &Args, shared: &SharedReport, checks: Vec<&'static str>, wi
                 for st in &strategies {
                     let b = [None, Some(1), Some(2), Some(3)][(idx % 4) as usize];
                     run.case(&m, &orc, &Config { block: b, ..Config::plain(st.clone()) }, None);
-                    if (th && idx % 8 == 0) || (m.inits.len() >= 3 && idx % 2 == 0) {
+                    if (th && idx % 8 == 0) || m.inits.len() >= 3 {
                         // (more initial states than workers: how the initial jobs are dealt out matters)
                         for t in [2usize, 3, 4] {
                             run.case(&m, &orc, &Config { threads: t, block: Some(1), ..Config::plain(st.clone()) }, None);
